@@ -235,6 +235,12 @@ def simulate(z, plan, profile=None):
         if z.plain is None:
             z.run_plain({"profile": profile, "knobs": {}, "files": [], "progs": [], "steps": []})
         z = z.plain
+    if any(s["op"] == "VOC" for s in plan["steps"]) and "ZSIM_NO_PREINIT" not in z.env:
+        # history and baselines in children of a worker in which no vocabulary
+        # was ever built or merged
+        if getattr(z, "nopre", None) is None:
+            z.run_no_preinit({"profile": profile, "knobs": {}, "files": [], "progs": [], "steps": []})
+        z = z.nopre
     resp = z.run(plan)
     out.resp = resp
     if resp.exit == -2:
@@ -343,7 +349,7 @@ def judge_hang(z, plan, resp, bl, v):
         _, st = O.verify_history(plan, resp, bl, check_seq=False)
         Q, V, I, R, Okept = st.tables
         if s["op"] == "PARSE":
-            b = bl.parse(int(s["args"][1]))
+            b = bl.parse(int(s["args"][1]))     # (default vocabulary: good enough to tell a crash in the parser)
             return v if b.ok else None
         if s["op"] == "OPEN":
             b = bl.open(P.hexdec(s["args"][1]).decode("latin-1"), s["args"][2] == "raw")
